@@ -9,6 +9,7 @@ import (
 	"net/netip"
 	"strings"
 	"sync"
+	"sync/atomic"
 	"time"
 
 	"github.com/fxamacker/cbor/v2"
@@ -32,6 +33,11 @@ func init() {
 			"non-trivial = variant built from >= 2 authentic announcements or mutating inside a nested layer; distinct by (operator, layer depth, field class)",
 		Run:              run,
 		CrashIsViolation: true,
+		HasRacePart:      true,
+		// the announcement handler is one object shared by all frame-handling workers of a router
+		// (only the verification code itself: what Handle stores about the origin afterwards - state.AddPublicRouterInfo
+		// on the shared storage record - is not state of this property and shows up under unrelated_races)
+		RaceAnchors: []string{`router\.\(\*AnnouncePingHandler\)\.(signingContext|parseAnnouncePing|sessionFromAnnouncePingAttachment)`, `m\.\(\*PublicAddress\)\.VerifySigWithContext`},
 	})
 }
 
@@ -647,6 +653,82 @@ func runVariants(res *core.Result, r *rand.Rand, caps []*capture, idV *m.Address
 	}
 }
 
+// concurrentSplice: the router's frame handlers run in parallel (one per CPU). While several of them handle
+// genuine announcements of origin Q delivered by peer P, another one receives the frame of origin C carrying the
+// hop records P signed for Q's announcement. Handled alone that splice is refused (splice-other-origin above);
+// it must be refused just the same while the genuine announcement is being verified next to it.
+func concurrentSplice(res *core.Result, r *rand.Rand, caps []*capture, idV, spare *m.Address, pairs, attempts int) {
+	done := 0
+	for try := 0; try < pairs*20 && done < pairs; try++ {
+		c := caps[r.IntN(len(caps))]
+		q := caps[r.IntN(len(caps))]
+		if len(q.layers) == 0 || q.origin == c.origin || c.origin == q.sender.IP || bytes.Equal(signingContext(q.data), signingContext(c.data)) {
+			continue
+		}
+		named := false
+		for _, l := range q.layers {
+			if l.Router.IP == c.origin {
+				named = true
+			}
+		}
+		if named {
+			continue
+		}
+		done++
+		vc, err := newVictim(idV, []*m.Address{q.sender, spare}, c.ids)
+		if err != nil {
+			res.Inconcl("victim: %v", err)
+			return
+		}
+		var sentMu sync.Mutex
+		forwardedForged := 0
+		vc.ms.OnSend = func(p *vmesh.Packet) {
+			if isAnnouncement(p.Data) && netip.AddrFrom16([16]byte(p.Data[16:32])) == c.origin {
+				sentMu.Lock()
+				forwardedForged++
+				sentMu.Unlock()
+			}
+		}
+		splice := withApx(c, q.apx)
+		var stop atomic.Bool
+		var wg sync.WaitGroup
+		for g := 0; g < 3; g++ {
+			wg.Add(1)
+			go func() {
+				defer wg.Done()
+				for !stop.Load() {
+					_, _ = vc.ms.HandleAtRouter(0, 1, q.data)
+				}
+			}()
+		}
+		for i := 0; i < attempts; i++ {
+			_, _ = vc.ms.HandleAtRouter(0, 1, splice)
+		}
+		stop.Store(true)
+		wg.Wait()
+		wit := map[string]any{"operator": "splice-other-origin/concurrent", "origin": c.origin.String(), "genuine_origin": q.origin.String(), "case_id": "concurrent-splice"}
+		if len(vc.ms.Panics) > 0 {
+			res.Violate("handler-panic:concurrent-announcements", fmt.Sprintf("announcements handled in parallel: %v", vc.ms.Panics[0]), wit)
+			return
+		}
+		for _, e := range vc.v.Inst.RouterV.Table().VerifEntries() {
+			if e.DstIP == c.origin {
+				res.Violate("forged-announcement-accepted:splice-other-origin/concurrent", fmt.Sprintf("the frame of origin %s carrying the hop records signed for the announcement of %s was accepted (route via %s) while genuine announcements of %s were being handled by other workers; handled alone it is refused", c.origin, q.origin, e.NextHop, q.origin), wit)
+				return
+			}
+		}
+		sentMu.Lock()
+		ff := forwardedForged
+		sentMu.Unlock()
+		if ff > 0 {
+			res.Violate("forged-announcement-forwarded:splice-other-origin/concurrent", fmt.Sprintf("the spliced announcement of origin %s was forwarded %d time(s) while genuine announcements were handled in parallel", c.origin, ff), wit)
+			return
+		}
+		res.Count("concurrent_splice_attempts_refused", int64(attempts))
+		res.Case(fmt.Sprintf("concurrent-splice/depth%d", min(len(q.layers), 12)), true)
+	}
+}
+
 func parallel(n int, fn func(w int)) {
 	var wg sync.WaitGroup
 	for w := 0; w < n; w++ {
@@ -668,6 +750,25 @@ func run(c *core.Ctx) {
 		{vmesh.Line(14), vmesh.LabelsSmall, 0}, {vmesh.Line(14), vmesh.LabelsBig, 300}, {vmesh.Line(9), vmesh.LabelsMixed, 1500},
 		{vmesh.Line(3), vmesh.LabelsSmall, 0}, {vmesh.Ring(5), vmesh.LabelsMixed, 0}, {vmesh.Grid(3, 3), vmesh.LabelsSmall, 200},
 		{vmesh.Tree(7), vmesh.LabelsBig, 0}, {vmesh.Line(2), vmesh.LabelsSmall, 0},
+	}
+	if c.RaceBuild {
+		// race part: announcements handled by several workers of one router at once
+		rs := []src{{vmesh.Line(5), vmesh.LabelsSmall, 0}, {vmesh.Ring(5), vmesh.LabelsMixed, 100}}
+		parallel(len(rs), func(w int) {
+			r := core.RNG(fmt.Sprintf("c08/race/%d", w))
+			ids := make([]*m.Address, rs[w].t.N+2)
+			for i := range ids {
+				ids[i] = env.NewIdentity(r, nil)
+			}
+			caps, err := harvest(r, rs[w].t, ids[:rs[w].t.N], rs[w].labels, rs[w].info, w)
+			if err != nil {
+				res.Inconcl("harvest: %v", err)
+				return
+			}
+			concurrentSplice(res, r, caps, ids[rs[w].t.N], ids[rs[w].t.N+1], c.Q(2, 10), c.Q(150, 600))
+		})
+		res.Require(res.Counter("concurrent_splice_attempts_refused") >= 300 || res.ViolationCount() > 0, "race part: too few concurrent deliveries")
+		return
 	}
 	perMesh := c.Q(40, 400) // captures sampled per mesh
 	flips := c.Q(2, 8)
@@ -697,6 +798,7 @@ func run(c *core.Ctx) {
 			}
 		}
 		runVariants(res, r, caps, ids[s.t.N], ids[s.t.N+1], flips, func(cp *capture) bool { return chosen[cp] })
+		concurrentSplice(res, r, caps, ids[s.t.N], ids[s.t.N+1], c.Q(2, 12), c.Q(300, 1500))
 		_ = W
 	})
 	res.Sample(map[string]any{"operator": "resigned-outer-over-foreign-inner-chain", "desc": "a relay that holds a real key signs its own hop record (context of announcement A) over the hop chain of announcement B"})
